@@ -47,6 +47,11 @@ CHECKS = {
    text="TLC checks BoundLocal/BoundTotal on the token-bucket model of throttledConn.Read (wait for the batch on both limiters, then one underlying read) for 2 connections sharing a total limiter, and as a self-test that the bounds fail when the read precedes the wait. The real handler runs over instant-data connections for a TLC-enumerated grid (rate x burst x total limit none/equal/only x latency x reader buffer x 1-4 concurrent connections); every underlying read is stamped when served and TLC judges the timed traces against G1 (per connection), G2 (summed over the handler), G3 (latency) and G4 (stream intact) of L4ThrottleAbs.",
    note="real time, ms resolution with 1 ms rounding slack; time zero is the instant the reader issued its first read; golang.org/x/time/rate trusted",
    technique="TLA+ token-bucket model checked with TLC; timed trace validation of the real throttle handler"),
+
+ "C01": dict(level="model_checking", design="5 C01, 4.1",
+   text="The record/rewind buffer (L4Segs: Read / prefetch / freeze / Wrap over stream segments) is part of the router model; TLC checks R7 (handlers together read the stream exactly once, in order, from position 0) and R8 (a tee branch reads what the handlers after the tee read) on every behaviour of a real-size configuration (unit 4 bytes: chunk 2048, limit 8192, PROXY v2 header 28 bytes) whose handler palette is the SHIPPED wrapping handlers - proxy_protocol, throttle, tee, echo, subroute - plus consuming/wrapping test handlers, and of the toy-constant configurations; every behaviour is replayed through the real handlers (position-coded stream, scripted segmentation) and must equal the prediction or is judged by TLC; random larger instances are validated the same way.",
+   note="TLS termination is exercised in the listener runs (C13) and the TLS chain runs, not in the exhaustive replay; one tee per configuration; matchers are scripted threshold/position matchers",
+   technique="TLA+ model of the record/rewind buffer and router with the shipped wrapping handlers, checked with TLC; behaviour replay + trace validation"),
 }
 NA = {
 }
